@@ -197,6 +197,12 @@ fn gen_pool(src: &mut Src) -> (Vec<Value>, Vec<String>, Vec<Vec<bool>>) {
     queries.push(format!("$.s[?match(@,{})]", lit));
     queries.push(format!("$.s[?search(@,{})]", lit));
     queries.push("$.s[?match(@,$.p)]".to_string());
+    // filters over the long lists (40 elements): few hits, many hits, every element a hit
+    queries.push("$.l[?@ == 'w0']".to_string());
+    queries.push("$.l[?@ != 'w0']".to_string());
+    queries.push("$.l[?match(@, 'w1.*')]".to_string());
+    queries.push("$.l[?search(@, $.p)]".to_string());
+    queries.push("$.l[?@ > 'w3']".to_string());
     queries.push("$..[?@==1]".to_string());
     queries.push("$..[?@==2]".to_string());
     queries.push("$..*".to_string());
